@@ -14,15 +14,16 @@ RULE = ("Exhaustive part: every ordered pair of monomials of length <=4/3/2 over
         "A+B, A-B, -A, scalar multiples, A+-x, x-A, [A,B], {A,B}, {c_i,c+_j} and the compound assignments A*=B, A+=B, A-=B, A*=A, A+=A (same object on both sides) the matrix obtained from pomerol (both from the returned "
         "normal-ordered monomials and from Operator::actRight / getMatrixElement on every Fock state) is compared with the same expression of "
         "numpy Jordan-Wigner matrices; A==B and A.commutes(B) must agree with matrix equality / commutation; OperatorPresets::N and Sz (both "
-        "constructors) must act like their generic polynomial on every Fock state.  Non-trivial: a product needing a contraction and a sign "
+        "constructors) must act like their generic polynomial on every Fock state; a polynomial over 6-62 modes is applied to single Fock states "
+        "(actRight, getMatrixElement) and compared with a bit-string Jordan-Wigner action.  Non-trivial: a product needing a contraction and a sign "
         "flip (some factor pair c_i ... c+_i out of order), or an equality query on operators with different monomial sets.")
 ASSUMPTIONS = ["numpy Jordan-Wigner matrices (pbt/oracle.py)", "coefficients are dyadic so that every sum is exact (no near-ties around the 100*epsilon erasure threshold)"]
 CONFIG = {
     "quick": {"flavours": ["real", "complex"], "shards": 8, "examples": 1500, "min_nontrivial": 500, "budget_s": 120},
     "thorough": {"flavours": ["real", "complex", "fuzz"], "shards": 16, "examples": 6000, "min_nontrivial": 10000, "budget_s": 3000},
 }
-REQUIRED_CLASSES = {"quick": ["contraction", "equal-rewritten", "unequal", "commuting", "non-commuting", "long-monomial", "sz"],
-                    "thorough": ["contraction", "equal-rewritten", "unequal", "commuting", "non-commuting", "long-monomial", "sz"]}
+REQUIRED_CLASSES = {"quick": ["contraction", "equal-rewritten", "unequal", "commuting", "non-commuting", "long-monomial", "sz", "fock-state>16-modes", "fock-state>32-modes"],
+                    "thorough": ["contraction", "equal-rewritten", "unequal", "commuting", "non-commuting", "long-monomial", "sz", "fock-state>16-modes", "fock-state>32-modes"]}
 COEFS = [0.0, 0.25, -0.25, 0.5, -0.5, 1.0, -1.0, 2.0, -2.0]
 
 
@@ -77,7 +78,16 @@ def strategy_(draw, tier):
     x = [draw(st.sampled_from(COEFS)), draw(st.sampled_from(COEFS)) if cplx else 0.0]
     i = draw(st.integers(0, Mm - 1)); j = draw(st.integers(0, Mm - 1))
     ups = draw(st.lists(st.integers(0, Mm - 1), unique=True, min_size=0, max_size=Mm))
-    return {"cplx": cplx, "M": Mm, "A": A, "B": B, "C": C, "x": x, "ij": [i, j], "kindB": kindB, "ups": sorted(ups)}
+    # a polynomial over many modes (up to 62, the width of the Fock-state word) applied to single Fock states: no 2^M matrices needed
+    Mw = draw(st.sampled_from([6, 12, 17, 18, 24, 31, 32, 33, 40, 62]))
+    hi = st.one_of(st.integers(0, Mw - 1), st.integers(max(0, Mw - 4), Mw - 1))
+    wpoly = []
+    for _ in range(draw(st.integers(1, 3))):
+        L = draw(st.integers(1, 5))
+        wpoly.append([[draw(st.sampled_from(COEFS[1:])), 0.0], [[draw(st.integers(0, 1)), draw(hi)] for _ in range(L)]])
+    kets = [str(draw(st.integers(0, (1 << Mw) - 1)) | draw(st.sampled_from([0, (1 << Mw) - 1, ((1 << Mw) - 1) // 3]))) for _ in range(3)]
+    return {"cplx": cplx, "M": Mm, "A": A, "B": B, "C": C, "x": x, "ij": [i, j], "kindB": kindB, "ups": sorted(ups),
+            "wide": {"M": Mw, "poly": wpoly, "kets": kets}}
 
 
 def strategy(tier):
@@ -100,6 +110,23 @@ def from_actright(Mm, ans):
         m[bra, ket] += cx(v)
         m2[bra, ket] += cx(me)
     return m, m2
+
+
+def act_poly(poly, ket):
+    """independent action of a polynomial (monomials in written order, rightmost factor first) on a bit string: state -> coefficient"""
+    out = {}
+    for coef, ops in poly:
+        s_ = ket; sign = 1; dead = False
+        for dag, i in reversed(ops):
+            occ = (s_ >> i) & 1
+            if occ == dag:
+                dead = True; break
+            if bin(s_ & ((1 << i) - 1)).count("1") & 1:
+                sign = -sign
+            s_ ^= (1 << i)
+        if not dead:
+            out[s_] = out.get(s_, 0) + complex(coef[0], coef[1]) * sign
+    return out
 
 
 def all_monomials(Mm, maxlen):
@@ -216,6 +243,10 @@ def execute(case, ctx):
     add("car", "alg acomm car ci cdj")
     sc.add("alg eq A B", "eq"); sc.add("alg eq B A", "eq2"); sc.add("alg eq A A", "eqAA")
     sc.add("alg commutes A B", "commutes"); sc.add("alg commutes B A", "commutes2")
+    wide = case.get("wide")
+    if wide:
+        sc.add(M.poly_line("alg set W", wide["poly"], by_label=False))
+        sc.add("alg act W %d %d %s" % (wide["M"], len(wide["kets"]), " ".join(wide["kets"])), "wide")
     sc.add("alg nop %d" % Mm, "nop")
     ups = case["ups"]
     dns = [k for k in range(Mm) if k not in ups]
@@ -264,6 +295,25 @@ def execute(case, ctx):
             if list(key) != srt or len(set(key)) != len(key) or key in seen:
                 return fail("%s: monomial %r is not normal ordered / unique" % (tag, ops), "normal-order")
             seen.add(key)
+    if wide:
+        a = ans.get("wide")
+        if a is None or "exc" in a:
+            return fail("applying a polynomial over %d modes to a Fock state threw: %s" % (wide["M"], (a or {}).get("exc")), "exc:wide")
+        for ket_s, got in zip(wide["kets"], a["r"]):
+            want = act_poly(wide["poly"], int(ket_s))
+            for which in (1, 2):
+                have = {}
+                for row in got:
+                    have[int(row[0])] = have.get(int(row[0]), 0) + cx(row[which])
+                keys = set(st_ for st_, v in want.items() if abs(v) > 1e-12) | set(st_ for st_, v in have.items() if abs(v) > 1e-12)
+                for st_ in keys:
+                    if abs(want.get(st_, 0) - have.get(st_, 0)) > 1e-12:
+                        return fail("%s of a polynomial over %d modes on |%s>: component |%d> is %r, Jordan-Wigner action gives %r" % (
+                            "actRight" if which == 1 else "getMatrixElement", wide["M"], bin(int(ket_s)), st_, have.get(st_, 0), want.get(st_, 0)), "wide-fock-state")
+        if wide["M"] >= 17:
+            classes.append("fock-state>16-modes")
+        if wide["M"] >= 33:
+            classes.append("fock-state>32-modes")
     meq = np.abs(A - B).max() < 1e-12
     for tag in ("eq", "eq2"):
         if bool(ans.get(tag)["eq"]) != bool(meq):
